@@ -342,8 +342,18 @@ fn cmd_selftest(args: &Args) -> i32 {
     let path = args.get("--vectors").unwrap_or("/verif/vectors/hashlib_vectors.json");
     match world::selftest::run(path) {
         Ok(n) => {
-            println!("selftest ok: {} reference vectors matched", n);
-            0
+            println!("selftest ok: {} reference hash vectors matched", n);
+            let lp = std::path::Path::new(path).with_file_name("lms_kat.json");
+            match world::selftest::run_lms(lp.to_str().unwrap()) {
+                Ok(k) => {
+                    println!("selftest ok: reference LMS model reproduces {} published known-answer signatures", k);
+                    0
+                }
+                Err(e) => {
+                    eprintln!("SELFTEST FAILED: {}", e);
+                    2
+                }
+            }
         }
         Err(e) => {
             eprintln!("SELFTEST FAILED: {}", e);
